@@ -23,6 +23,8 @@ pub struct DriveOpts {
     pub scratch: PathBuf,
     pub shapes: Vec<Vec<Value>>,
     pub reps: Option<usize>,
+    /// run every read-only observer (XML, DOT, Debug, Display, v_print, inspect) after every so many calls (0: never)
+    pub observe: usize,
     pub progress: Option<PathBuf>,
 }
 
@@ -216,7 +218,7 @@ pub fn run(o: &DriveOpts, out: &mut dyn Write, tid: usize) -> Value {
     }
     w.labels = labels.clone();
     let datas = data_pool();
-    let mut rec = Recorder { out, tid, events: 0, mirror_next: false, progress: o.progress.clone(), last_id: None, observe_every: if o.profile == "observe" { 25 } else { 0 }, own: BTreeMap::new() };
+    let mut rec = Recorder { out, tid, events: 0, mirror_next: false, progress: o.progress.clone(), last_id: None, observe_every: if o.observe > 0 { o.observe } else if o.profile == "observe" { 25 } else { 0 }, own: BTreeMap::new() };
     rec.reset(&w);
     let win = o.window.min(o.cap);
     // profile "high": the ids in play are the LAST `window` ids below the capacity
@@ -321,6 +323,44 @@ pub fn run(o: &DriveOpts, out: &mut dyn Write, tid: usize) -> Value {
                 off = (off + 3) % span;
             }
         }
+    }
+
+    if profile == "alloc" {
+        // the allocator walked through the WHOLE id space: pairs of ids from next_id() are added, bound, given a datum, read
+        // and collected; now and then a vertex is created explicitly a little above the allocator position and stays (the
+        // allocator must step over it), now and then a pair is kept alive.  The driver keeps its own model of the position
+        // (ids only go up, collected ids are not handed out again) and stops before the ids run out.
+        let nl = o.n.max(1).min(labels.len());
+        let mut nv = 0usize;                               // own model of the allocator position
+        let mut taken: Vec<usize> = vec![];                // explicitly created ids at or above it
+        let mut kept = 0usize;
+        let mut round = 0usize;
+        while ok && rec.events < o.steps {
+            let avail: Vec<usize> = (nv..o.cap).filter(|i| !taken.contains(i)).collect();
+            if avail.len() < 2 {
+                break;
+            }
+            let (a, b) = (avail[0], avail[1]);
+            ok = ok && rec.call(&mut w, HCall { h: 0, call: Call::NextId });
+            ok = ok && rec.call(&mut w, HCall { h: 0, call: Call::Add { v: a } });
+            ok = ok && rec.call(&mut w, HCall { h: 0, call: Call::NextId });
+            ok = ok && rec.call(&mut w, HCall { h: 0, call: Call::Add { v: b } });
+            nv = b + 1;
+            ok = ok && rec.call(&mut w, HCall { h: 0, call: Call::Bind { v1: if round % 2 == 0 { a } else { b }, v2: if round % 2 == 0 { b } else { a }, a: labels[round % nl].clone() } });
+            ok = ok && rec.call(&mut w, HCall { h: 0, call: Call::Put { v: b, d: datas[round % datas.len()].clone() } });
+            if round % 11 == 7 && kept < 10 {
+                kept += 1;                                 // this pair stays alive
+            } else {
+                ok = ok && rec.call(&mut w, HCall { h: 0, call: Call::Data { v: b } });
+            }
+            if round % 5 == 2 && nv + 8 < o.cap {
+                let e = nv + 1 + (round % 3);
+                ok = ok && rec.call(&mut w, HCall { h: 0, call: Call::Add { v: e } });
+                taken.push(e);
+            }
+            round += 1;
+        }
+        return json!({"t": tid, "profile": o.profile, "n": o.n, "cap": o.cap, "seed": o.seed, "events": rec.events, "panicked": !ok, "rounds": round});
     }
 
     if profile == "cycle" || profile == "cycletwin" {
@@ -649,7 +689,7 @@ pub fn run(o: &DriveOpts, out: &mut dyn Write, tid: usize) -> Value {
         // at most N distinct labels in play, so that no merged vertex can exceed the edge capacity
         let labels: Vec<String> = labels.iter().take(o.n.max(1)).cloned().collect();
         // rounds of: a random tree g on handle 0, a random tree h (+ sometimes extras) on handle 1, merge, reads
-        let tree = |rng: &mut StdRng, rec: &mut Recorder, w: &mut World, h: usize, size: usize, extras: usize| -> (bool, Vec<usize>) {
+        let tree = |rng: &mut StdRng, rec: &mut Recorder, w: &mut World, h: usize, size: usize, extras: usize, star: bool| -> (bool, Vec<usize>) {
             let mut ok = rec.call(w, HCall { h, call: Call::New { n: o.n, cap: o.cap } });
             let mut ids: Vec<usize> = (0..win).collect();
             ids.shuffle(rng);
@@ -673,7 +713,8 @@ pub fn run(o: &DriveOpts, out: &mut dyn Write, tid: usize) -> Value {
             for i in 1..verts.len() {
                 // parent among the earlier ones that still has a free label
                 let cands: Vec<usize> = verts[..i].iter().copied().filter(|p| used.get(p).map(|u| u.len()).unwrap_or(0) < o.n.min(labels.len())).collect();
-                let Some(par) = cands.choose(rng).copied() else { break };
+                // star: the first candidate (the root while it has a free label), so that wide vertices occur
+                let Some(par) = (if star { cands.first().copied() } else { cands.choose(rng).copied() }) else { break };
                 let u = used.entry(par).or_default();
                 let free: Vec<&String> = labels.iter().filter(|l| !u.contains(l)).collect();
                 let a = (*free.choose(rng).unwrap()).clone();
@@ -693,13 +734,81 @@ pub fn run(o: &DriveOpts, out: &mut dyn Write, tid: usize) -> Value {
             }
             (ok, verts)
         };
+        let mut first_round = true;
         while ok && rec.events < o.steps {
+            // every round starts from two fresh graphs, so every round is a history of its own: a new trace for the judge
+            // (a merge that leaves the limits then voids that round only, not everything after it)
+            if !first_round {
+                rec.tid += 1000;
+                w = World::new(o.n, o.cap, o.scratch.clone());
+                w.labels = labels.clone();
+                rec.reset(&w);
+            }
+            first_round = false;
+            if win >= 60 && o.n >= 2 && rng.gen_bool(0.15) {
+                // trees that span several groups (sub-trees built on their own and linked afterwards: binding two grouped
+                // vertices changes no group), 17 to 22 vertices; g has the same shape but for one or two leaves
+                let total = rng.gen_range(17..=22usize);
+                let a = rng.gen_range((total - 11).max(6)..=11usize.min(total - 6));
+                let nlab = o.n.min(labels.len());
+                // shape[i] = (parent index, label index); component A = 0..a, component B = a..total (B's root hangs below A)
+                let mut shape: Vec<(usize, usize)> = vec![(0, 0); total];
+                let mut usedl: Vec<Vec<usize>> = vec![vec![]; total];
+                for i in 1..total {
+                    let (lo, hi) = if i < a { (0, i) } else if i == a { (0, a) } else { (a, i) };
+                    let cands: Vec<usize> = (lo..hi).filter(|p| usedl[*p].len() < nlab).collect();
+                    let Some(par) = cands.choose(&mut rng).copied() else { continue };
+                    let free: Vec<usize> = (0..nlab).filter(|l| !usedl[par].contains(l)).collect();
+                    let l = *free.choose(&mut rng).unwrap();
+                    usedl[par].push(l);
+                    shape[i] = (par, l);
+                }
+                let mut drop_g: Vec<usize> = vec![total - 1];
+                if rng.gen_bool(0.5) {
+                    drop_g.push(a - 1);
+                }
+                let mut roots = (0usize, 0usize);
+                for h in [0usize, 1] {
+                    ok = ok && rec.call(&mut w, HCall { h, call: Call::New { n: o.n, cap: o.cap } });
+                    let mut ids: Vec<usize> = (0..win).collect();
+                    ids.shuffle(&mut rng);
+                    let skip = |i: usize| h == 0 && drop_g.contains(&i);
+                    for i in 0..total {
+                        if !skip(i) {
+                            ok = ok && rec.call(&mut w, HCall { h, call: Call::Add { v: ids[i] } });
+                        }
+                    }
+                    for i in (1..total).filter(|i| *i != a).chain(std::iter::once(a)) {
+                        if !skip(i) {
+                            ok = ok && rec.call(&mut w, HCall { h, call: Call::Bind { v1: ids[shape[i].0], v2: ids[i], a: labels[shape[i].1].clone() } });
+                        }
+                    }
+                    for i in 0..total {
+                        if !skip(i) && rng.gen_bool(0.4) {
+                            ok = ok && rec.call(&mut w, HCall { h, call: Call::Put { v: ids[i], d: datas.choose(&mut rng).unwrap().clone() } });
+                        }
+                    }
+                    if h == 0 { roots.0 = ids[0] } else { roots.1 = ids[0] }
+                }
+                ok = ok && rec.call(&mut w, HCall { h: 0, call: Call::Merge { src: 1, left: roots.0, right: roots.1 } });
+                for _ in 0..rng.gen_range(4..16) {
+                    if !ok {
+                        break;
+                    }
+                    let pres = w.g(0).keys().unwrap_or_default();
+                    let Some(v) = pres.choose(&mut rng).copied() else { break };
+                    ok = rec.call(&mut w, HCall { h: 0, call: Call::Data { v } });
+                }
+                continue;
+            }
             let gs = rng.gen_range(1..=7usize.min(win));
-            let hs = rng.gen_range(1..=7usize.min(win));
+            let hs = rng.gen_range(1..=(if o.n >= 6 { 10usize } else { 7 }).min(win));
+            let star = rng.gen_bool(0.3);
             // extras: usually none, sometimes one or two, now and then more than a group's worth (17..30 isolated vertices)
             let ex = if win >= 48 && rng.gen_bool(0.12) { rng.gen_range(17..=30) } else if rng.gen_bool(0.25) { rng.gen_range(1..=2) } else { 0 };
-            let (ok1, gv) = tree(&mut rng, &mut rec, &mut w, 0, gs, 0);
-            let (ok2, hv) = tree(&mut rng, &mut rec, &mut w, 1, hs, ex);
+            let gex = if star && rng.gen_bool(0.5) { rng.gen_range(1..=3) } else { 0 };
+            let (ok1, gv) = tree(&mut rng, &mut rec, &mut w, 0, gs, gex, false);
+            let (ok2, hv) = tree(&mut rng, &mut rec, &mut w, 1, hs, ex, star);
             ok = ok1 && ok2;
             if !ok {
                 break;
